@@ -21,7 +21,8 @@
 EXTENDS Naturals, Sequences, FiniteSets, TLC
 
 CONSTANTS MaxPlugins, AbortOnFirstFailure,
-          Rich       \* TRUE: the full grid of role sets / fault sets, FALSE: a reduced grid (quick runs)
+          Rich,      \* TRUE: the full grid of role sets / fault sets, FALSE: a reduced grid (quick runs)
+          MaxLives   \* how many times the agent is started on the same configuration object (NextLife)
 
 LoadKinds == {"ok", "unimportable", "ctor_fails", "inactive"}
 Roles == {"resource", "decorate", "log", "span", "metric"}
@@ -45,20 +46,21 @@ VARIABLES plugins,   \* configured plugins in configuration order: [load, order,
           loaded,    \* indexes of the loaded plugins in the order the agent uses them
           called,    \* called[p] = sequence of callbacks invoked on plugin p, in order
           spansOpen, \* plugins that created a span (and must close it)
-          aborted    \* callbacks whose loop was ended early by a failure
+          aborted,   \* callbacks whose loop was ended early by a failure
+          life       \* 1, 2, ...: which start of the agent on this configuration this is
 
-vars == <<plugins, phase, loaded, called, spansOpen, aborted>>
+vars == <<plugins, phase, loaded, called, spansOpen, aborted, life>>
 
 PluginRecs == [load : LoadKinds, order : 0..2, roles : RoleSets, faults : FaultSets]   \* order 0..2 stands for -1, 0, 1
 
 Init ==
-    /\ plugins = <<>> /\ phase = 0 /\ loaded = <<>> /\ called = <<>> /\ spansOpen = {} /\ aborted = {}
+    /\ plugins = <<>> /\ phase = 0 /\ loaded = <<>> /\ called = <<>> /\ spansOpen = {} /\ aborted = {} /\ life = 1
 
 Configure(p) ==
-    /\ phase = 0 /\ Len(plugins) < MaxPlugins
+    /\ phase = 0 /\ Len(plugins) < MaxPlugins /\ life = 1
     /\ plugins' = Append(plugins, p)
     /\ called' = Append(called, <<>>)
-    /\ UNCHANGED <<phase, loaded, spansOpen, aborted>>
+    /\ UNCHANGED <<phase, loaded, spansOpen, aborted, life>>
 
 (* stable sort of the loadable plugins by their declared order *)
 Loadable == {i \in 1..Len(plugins) : plugins[i].load = "ok"}
@@ -73,7 +75,7 @@ Load ==
     /\ phase = 0 /\ plugins # <<>>
     /\ loaded' = SortedLoad
     /\ phase' = 1
-    /\ UNCHANGED <<plugins, called, spansOpen, aborted>>
+    /\ UNCHANGED <<plugins, called, spansOpen, aborted, life>>
 
 HasRole(i, cb) ==
     IF cb = "shutdown" THEN TRUE
@@ -102,9 +104,21 @@ Activity ==
           /\ spansOpen' = IF cb = "create_span" THEN {i \in rs : cb \notin plugins[i].faults} ELSE spansOpen
           /\ aborted' = IF Len(r) < Len(Addressed(cb)) THEN aborted \cup {cb} ELSE aborted
     /\ phase' = phase + 1
-    /\ UNCHANGED <<plugins, loaded>>
+    /\ UNCHANGED <<plugins, loaded, life>>
 
-Next == (\E p \in PluginRecs : Configure(p)) \/ Load \/ Activity \/ (phase = Len(Callbacks) + 1 /\ UNCHANGED vars)
+(* after shutdown the application switches some plugins on or off by configuration and starts the agent again on the *)
+(* same configuration object: the new life is that of the new switches - nothing of the previous one survives        *)
+Switchable == {i \in 1..Len(plugins) : plugins[i].load \in {"ok", "inactive"}}
+NextLife(F) ==
+    /\ phase = Len(Callbacks) + 1 /\ life < MaxLives /\ F # {} /\ F \subseteq Switchable
+    /\ plugins' = [i \in 1..Len(plugins) |->
+                      IF i \in F THEN [plugins[i] EXCEPT !.load = IF @ = "ok" THEN "inactive" ELSE "ok"] ELSE plugins[i]]
+    /\ phase' = 0 /\ loaded' = <<>> /\ spansOpen' = {} /\ aborted' = {}
+    /\ called' = [i \in 1..Len(plugins) |-> <<>>]
+    /\ life' = life + 1
+
+Next == (\E p \in PluginRecs : Configure(p)) \/ Load \/ Activity \/ (\E F \in SUBSET (1..MaxPlugins) : NextLife(F))
+        \/ (phase = Len(Callbacks) + 1 /\ UNCHANGED vars)
 
 Spec == Init /\ [][Next]_vars
 
